@@ -21,4 +21,12 @@ theorem gen_ratio_eq (k d : ℝ) :
     Osu.GenArith.ratio_group_velocity_to_phase_velocity k d = ratio k (.finite d) := by
   simp only [Osu.GenArith.ratio_group_velocity_to_phase_velocity, ratio, half, two, Transc.sinh, Nat.cast_ofNat, gt_iff_lt]
 
+theorem gen_phase_velocity_eq (k d g : ℝ) :
+    Osu.GenArith.phase_velocity k d g = phaseVelocity g k (.finite d) := by
+  simp only [Osu.GenArith.phase_velocity, phaseVelocity, gen_omega_eq]
+
+theorem gen_group_velocity_eq (k d g : ℝ) :
+    Osu.GenArith.intrinsic_group_velocity k d g = groupVelocity g k (.finite d) := by
+  simp only [Osu.GenArith.intrinsic_group_velocity, groupVelocity, gen_ratio_eq, gen_phase_velocity_eq]
+
 end Osu.Props.C07Gen
